@@ -208,6 +208,35 @@ def ob_keep_branch_lengths(tier, seed):
     return Ob("C02.keep_branch_lengths", "B", body, clause="root branch collapsed with lengths summed", funcs=FUNCS)
 
 
+def ob_datatype_consistency():
+    """tip states vs tip partials with ambiguities treated as missing, at the level of the data-type tables (finite, exhaustive):
+    partial(c, use_ambiguities=False) is the indicator of encoding(c), or all ones when encoding(c) is the unknown state"""
+    def body():
+        from torchtree.evolution.datatype import AminoAcidDataType, CodonDataType, GeneralDataType, NucleotideDataType
+        n = 0
+        cases = [("nucleotide", NucleotideDataType(None), [chr(c) for c in range(33, 127)]),
+                 ("amino acid", AminoAcidDataType(None), [chr(c) for c in range(33, 127)]),
+                 ("general", GeneralDataType(None, ("X", "Y", "Z"), {"W": ["X", "Y"], "V": "Z", "U": ["X", "Y", "Z"]}), ["X", "Y", "Z", "W", "V", "U", "?", "-"]),
+                 ("codon", CodonDataType(None, "Universal"), ["AAA", "ACG", "TAA", "---", "A-C", "NNN", "TTT"])]
+        for name, dt, symbols in cases:
+            S = dt.state_count
+            for c in symbols:
+                try:
+                    st = min(int(dt.encoding(c)), S)
+                except Exception:
+                    continue
+                if name == "codon" and c == "TAA":
+                    continue   # stop codon in the data: not constrained
+                got = tuple(float(v) for v in dt.partial(c, False))
+                want = tuple(1.0 for _ in range(S)) if st >= S else tuple(1.0 if i == st else 0.0 for i in range(S))
+                n += 1
+                if got != want:
+                    raise Refuted("%s data type, symbol %r: tip state is %s but the tip partial with ambiguities as missing is %s" % (name, c, "unknown" if st >= S else st, got),
+                                  witness={"datatype": name, "symbol": c, "state": st, "partial": got}, confirmed=True)
+        return {"backend": "enum", "cases": n, "statement": "partial(c, use_ambiguities=False) = indicator of encoding(c), all ones for the unknown state"}
+    return Ob("C02.datatype.states_vs_partials", "V", body, clause="tip states ≡ tip partials with ambiguities as missing (data-type tables, exhaustive)", funcs=FUNCS)
+
+
 def ob_reroot_numeric(seed):
     """bounded stand-in: re-rooting under the real HKY / GTR models at random parameter values"""
     def body():
@@ -305,5 +334,6 @@ def obligations(tier, seed):
                 b = dict(base, newick=trees.to_newick(tb, names))
                 add("C02.reroot.JC69[%s -> %s]" % (base["newick"], b["newick"]), (T, base, b, "JC69"), "root placement (pulley principle, JC69 exact)")
     obs.append(ob_keep_branch_lengths(tier, seed))
+    obs.append(ob_datatype_consistency())
     obs.append(ob_reroot_numeric(seed))
     return obs
